@@ -36,6 +36,7 @@ type codec struct {
 	// fed with arbitrary bytes.
 	noDeepDecoded bool
 	cheap         bool // all 3-byte strings in thorough
+	derived       bool // derived codec: skipped in the value round-trip phase
 	// canon, if set, is the form compared for equality instead of enc (the
 	// compressed P2P form is not canonical: the compressor may choose freely).
 	canon func(v any) ([]byte, error)
@@ -51,6 +52,8 @@ type codec struct {
 	sig func(seed []byte) string
 	// maxSeed overrides the length bound of seeds used for mutation.
 	maxSeed int
+	// maxSeeds bounds the number of seeds (quick, thorough); 0 = all.
+	maxSeeds [2]int
 }
 
 type namedBytes struct {
@@ -141,6 +144,30 @@ func withJSON[T any](c *codec) *codec {
 func (c *codec) withSizeVar() *codec {
 	c.size = func(v any) int { return io.GetVarSize(v) }
 	return c
+}
+
+// jsonCodecOf derives the codec of the JSON decoder of c: the "encoding" is the
+// JSON text, the decoder is UnmarshalJSON.
+func jsonCodecOf(c *codec) *codec {
+	return &codec{
+		name: c.name + "/json", pkg: c.pkg,
+		gen: func(th bool) []any {
+			var out []any
+			for _, v := range c.gen(th) {
+				if _, err := c.jenc(v); err == nil {
+					out = append(out, v)
+				}
+			}
+			return out
+		},
+		enc:      c.jenc,
+		dec:      c.jdec,
+		hash:     c.hash,
+		noDeep:   c.noDeep,
+		maxSeed:  900,
+		maxSeeds: [2]int{10, 40},
+		derived:  true,
+	}
 }
 
 // ---- structural equality ------------------------------------------------------
